@@ -22,22 +22,20 @@
 package fam_cylinder
 
 import (
-	"bytes"
 	"context"
 	"encoding/hex"
 	"errors"
 	"fmt"
 	"runtime"
 	"sort"
-	"strconv"
 	"strings"
 	"time"
 
+	dbm "github.com/cometbft/cometbft-db"
 	abci "github.com/cometbft/cometbft/abci/types"
 	cmtbytes "github.com/cometbft/cometbft/libs/bytes"
 	rpcclient "github.com/cometbft/cometbft/rpc/client"
 	ctypes "github.com/cometbft/cometbft/rpc/core/types"
-	dbm "github.com/cometbft/cometbft-db"
 
 	sdkclient "github.com/cosmos/cosmos-sdk/client"
 	sdk "github.com/cosmos/cosmos-sdk/types"
@@ -222,9 +220,9 @@ type session struct {
 	pendN                   int
 	seen                    map[akey]bool // an earlier HandleSigning (query ok) targeted this open assignment of me
 
-	flags   map[string]bool
-	tags    map[string]bool
-	replay  bool
+	flags  map[string]bool
+	tags   map[string]bool
+	replay bool
 }
 
 func (s *session) tokenOf(key string, create bool) int {
@@ -579,8 +577,12 @@ func (s *session) refillOthers(onlyFirst bool) {
 			s.odes[de.Key()] = de
 			pubs = append(pubs, de.Pub())
 		}
-		if o := s.deliver(&tsstypes.MsgSubmitDEs{DEs: pubs, Sender: m.Acc.Addr.String()}); !o.OK() {
-			panic(fmt.Sprint("refill of another member failed: ", o.Err))
+		// never panic here: a chain that refuses this (a defect outside this family) must not kill the driver
+		for len(pubs) > 0 {
+			if o := s.deliver(&tsstypes.MsgSubmitDEs{DEs: pubs, Sender: m.Acc.Addr.String()}); o.OK() {
+				break
+			}
+			pubs = pubs[:len(pubs)-1]
 		}
 	}
 }
@@ -997,6 +999,3 @@ func (s *session) apply(step tf.M) {
 		panic("fam_cylinder: unknown step " + fmt.Sprint(step))
 	}
 }
-
-var _ = bytes.Equal
-var _ = strconv.Itoa
